@@ -6,6 +6,12 @@ cd /verif
 pat=${1:-.}
 one() {
   d=$1; n=$(basename $d)
+  if [ "$(jq -r '.superseded // empty | length' $d/meta.json)" != "" ]; then
+    # a later repair of /repo made the tree robust against this change: its demonstration passes
+    # again, it is no longer a change that breaks the property (kept for the record)
+    still=$(jq -r '.superseded.still_reported_by | join(",")' $d/meta.json)
+    echo "SUPERSEDED $n (since $(jq -r '.superseded.since_repo_commit' $d/meta.json)${still:+; still reported by $still})"; return
+  fi
   c=$(jq -r '.caught_by[0]' $d/meta.json)
   out=$(timeout 2400 tools/sens.sh $c $d/patch.diff 2>&1)
   rc=$(echo "$out" | sed -n 's/^== .* exit=\([0-9]*\)$/\1/p')
@@ -15,5 +21,5 @@ one() {
 export -f one
 ls -d seeded/*/ | sed 's#/$##' | grep -- "$pat" | xargs -P ${JOBS:-1} -I{} bash -c 'one {}' | sort -k2 > /tmp/run_seeds.$$
 cat /tmp/run_seeds.$$
-echo "seeded changes caught: $(grep -c '^CAUGHT' /tmp/run_seeds.$$), missed: $(grep -c '^MISSED' /tmp/run_seeds.$$)"
+echo "seeded changes caught: $(grep -c '^CAUGHT' /tmp/run_seeds.$$), missed: $(grep -c '^MISSED' /tmp/run_seeds.$$), superseded by later repairs: $(grep -c '^SUPERSEDED' /tmp/run_seeds.$$)"
 rm -f /tmp/run_seeds.$$
